@@ -49,7 +49,7 @@ from pyxel.observation import ParameterValues
 from pyxel.calibration.fitting_datatree import ModelFittingDataTree
 class Fake(ModelFittingDataTree):
     def __init__(self, variables): self._variables = variables
-vs = [ParameterValues(key='a.b.vec', values=['_', '_', '_'], boundaries=[1.0, 100.0], logarithmic=True), ParameterValues(key='a.b.s1', values='_', boundaries=[0.0, 5.0]),
+vs = [ParameterValues(key='a.b.vec', values=['_', '_', '_'], boundaries=[1.0, 100.0], logarithmic=True), ParameterValues(key='a.b.s1', values='_', boundaries=[0.0, 5.0], enabled=False),
       ParameterValues(key='a.b.s2', values='_', boundaries=[10.0, 1000.0], logarithmic=True), ParameterValues(key='a.b.v2', values=['_', '_'], boundaries=[[0, 1], [2, 3]]),
       ParameterValues(key='a.b.v3', values=['_', '_'], boundaries=[[1.0, 10.0], [100.0, 1000.0]], logarithmic=True)]
 f = Fake(vs)
@@ -80,6 +80,7 @@ def mk_cfg(u):
     cfg = Cfg("real")
     cfg.field_types[("ParameterValues", "_values")] = ("custom", pv_values)
     cfg.field_types[("ParameterValues", "_logarithmic")] = "bool"
+    cfg.field_types[("ParameterValues", "_enabled")] = "bool"          # arbitrary per variable: the layout holds whatever the flags are
     cfg.field_types[("ParameterValues", "_key")] = "str"
     cfg.lib_overrides[("eq", "pvvalues")] = lambda ex, a, b, fr: (SC((a if isinstance(a, VOpaque) else b).t)
                                                                    if isinstance((b if isinstance(a, VOpaque) else a), VStr) and (b if isinstance(a, VOpaque) else a).v == "_" else False)
